@@ -43,7 +43,10 @@ ASSUMPTIONS = [
     "no language tags; rdflib.NORMALIZE_LITERALS and DAWG_LITERAL_COLLATION at the values reflected / default",
     "sNaN and NaN-with-payload forms of Decimal are outside the model (never generated for the modelled suite)",
     "xsd:float is judged with double precision (rdflib maps both float and double to Python float)",
-    "float/double, durations, XML literals, python bytes values: sampled against the oracle only, nothing proved",
+    "float/double, the three duration types, xsd:language, xsd:anyURI, rdf:XMLLiteral, python float/timedelta/Duration/"
+    "bytes/Document values, gYear/gYearMonth lexicalisation: DIFFERENTIAL TESTING of rdflib against the oracle written "
+    "in this file (suite conformance), no model and no theorem (C09_conformance_glue is bookkeeping only); rdf:HTML is "
+    "not a recognised datatype in this installation (no html5rdf)",
     "temporal model: only lexical forms of the XSD shape ([-]Y{4,}-MM-DD, hh:mm:ss[.f+], T separator, Z|+-hh:mm) are "
     "offered to it; python's fromisoformat accepts further ISO 8601 forms, which stay in the conformance suite; "
     "python values: utcoffset in whole minutes of at most 14:00 (python allows up to 23:59, which isoformat() writes "
@@ -598,6 +601,12 @@ def oracle(d, l):
         return oracle_duration(l, d)
     if d == "hexBinary":
         return ("b", bytes.fromhex(l).hex()) if RE_HEX.match(l) else None
+    if d == "language":
+        return ("s", l) if re.match(r"[a-zA-Z]{1,8}(-[a-zA-Z0-9]{1,8})*\Z", l) else None
+    if d == "anyURI":
+        return ("s", l)
+    if d == "XMLLiteral":
+        return xml_canon("<r>" + l + "</r>")
     if d == "base64Binary":
         s = re.sub(r"[ \t\n\r]", "", l)
         if not re.match(r"^(?:[A-Za-z0-9+/]{4})*(?:[A-Za-z0-9+/]{2}[AEIMQUYcgkosw048]=|[A-Za-z0-9+/][AQgw]==)?\Z", s):
@@ -607,9 +616,31 @@ def oracle(d, l):
     raise ValueError(d)
 
 
+def xml_canon(doc):
+    """independent reading of an XML literal: well-formed content, compared in canonical form (C14N 2.0)"""
+    import xml.etree.ElementTree as ET
+    if "<?xml" in doc or "<!DOCTYPE" in doc:
+        return None
+    try:
+        return ("xml", ET.canonicalize(xml_data=doc))
+    except Exception:  # noqa: BLE001
+        return None
+
+
+def conf_dt_uri(d):
+    return RDF.XMLLiteral if d == "XMLLiteral" else XSD[d]
+
+
 def canon_any(d, v):
     if v is None:
         return None
+    if d in ("language", "anyURI"):
+        return ("s", v) if type(v) is str else ("?", repr(v)[:30])
+    if d == "XMLLiteral":
+        try:
+            return xml_canon(v.documentElement.toxml().replace("rdflibtoplevelelement", "r"))
+        except Exception:  # noqa: BLE001
+            return ("?", repr(v)[:30])
     if d in ("double", "float"):
         return canon_float(v)
     if d in ("hexBinary", "base64Binary"):
@@ -618,7 +649,14 @@ def canon_any(d, v):
 
 
 CONF_DT = ["double", "float", "dateTime", "date", "time", "duration", "dayTimeDuration", "yearMonthDuration",
-           "hexBinary", "base64Binary"]
+           "hexBinary", "base64Binary", "language", "anyURI", "XMLLiteral"]
+
+LANG_FORMS = ["en", "en-GB", "de-CH-1901", "x-klingon", "EN", "", "e n", "toolonglanguage", "en-", "-en", "en_GB", "zh-Hant-TW",
+              "a1", "1a", "en--GB"]
+URI_FORMS = ["http://a/b", "", "a b", "%zz", "urn:x:y", "http://é/ü", "#frag", "../rel", "mailto:a@b", "http://a/b?q=1#f"]
+XML_FORMS = ["", "a", "<b>x</b>", "<b>x", "a &amp; b", "a & b", "<a x='1'/>", "<a/><b/>", "<?xml version='1.0'?><a/>",
+             " <a> </a> ", "<a xmlns='u:'/>", "é<a>ü</a>", "<a><b/></a>", "<a b='2' a='1'/>", "<a></a>", "x<!-- c -->y",
+             "<![CDATA[<]]>", "&lt;", "<a>&#65;</a>", "</a>", "<a", "<a b=1/>", "<p:a xmlns:p='u:'/>", "<p:a/>"]
 
 
 def gen_double_form(rng):
@@ -784,8 +822,13 @@ class C09Conf(Suite):
             elif k < 0.97:
                 c = {"law": 1, "py": ["duration", rng.choice([0, 1, 2]), rng.choice([0, 1, 13]),
                                       rng.choice([0, 1, 400]), rng.choice([0, 0, 3661])]}
-            else:
+            elif k < 0.98:
                 c = {"law": 1, "py": ["bytes", rng.choice(["", "ab", "00ff", "e9"])]}
+            elif k < 0.99:
+                c = {"law": 1, "py": ["xmldoc", rng.choice(["<r><b>x</b>y</r>", "<r/>", "<r a='1'>&amp;</r>"])]}
+            else:
+                c = {"law": 1, "py": ["gdate", rng.choice(["gYear", "gYearMonth"]), rng.choice([1, 5, 999, 2020, 9999]),
+                                      rng.choice([1, 3, 12])]}
         else:
             d = rng.choice(CONF_DT)
             if d in ("double", "float"):
@@ -794,6 +837,12 @@ class C09Conf(Suite):
                 l = gen_temporal_form(rng, d)
             elif d in ("hexBinary", "base64Binary"):
                 l = gen_binary_form(rng, d)
+            elif d == "language":
+                l = rng.choice(LANG_FORMS)
+            elif d == "anyURI":
+                l = rng.choice(URI_FORMS)
+            elif d == "XMLLiteral":
+                l = rng.choice(XML_FORMS)
             else:
                 l = gen_duration_form(rng, d)
             valid = oracle(d, l) is not None
@@ -824,6 +873,9 @@ class C09Conf(Suite):
             return Duration(years=py[1], months=py[2], days=py[3], seconds=py[4])
         if k == "bytes":
             return bytes.fromhex(py[1])
+        if k == "xmldoc":
+            import xml.dom.minidom
+            return xml.dom.minidom.parseString(py[1])
         raise ValueError(py)
 
     DOC = {"float": "double", "datetime": "dateTime", "date": "date", "time": "time", "timedelta": "dayTimeDuration",
@@ -833,6 +885,24 @@ class C09Conf(Suite):
         law = c["law"]
         info = {}
         try:
+            if law == 1 and c["py"][0] == "gdate":
+                # the specific rules (date, gYear) / (date, gYearMonth): form of the XSD shape, the right year / month
+                _, g, y, m = c["py"]
+                x = Literal(date(y, m, 1), datatype=XSD[g])
+                lex = str.__str__(x)
+                want = f"{y:04d}" if g == "gYear" else f"{y:04d}-{m:02d}"
+                ok = lex == want and x.datatype == XSD[g] and str.__str__(x.normalize()) == lex
+                return {"flags": 0 if ok else 1, "info": {"lex": lex}}
+            if law == 1 and c["py"][0] == "xmldoc":
+                v = self._mk(c["py"])
+                x = Literal(v)
+                lex = str.__str__(x)
+                back = Literal(lex, datatype=x.datatype)
+                # (a Document is not among the python classes of the property; x.eq(back) is False here because the
+                # re-read value carries rdflib's wrapper element and the user's document does not - not judged)
+                ok = (x.datatype == RDF.XMLLiteral and xml_canon(lex) == xml_canon(c["py"][1])
+                      and back.ill_typed is False and canon_any("XMLLiteral", back.value) == xml_canon("<r>" + lex + "</r>"))
+                return {"flags": 0 if ok else 1, "info": {"lex": lex}}
             if law == 1:
                 v = self._mk(c["py"])
                 try:
@@ -859,7 +929,7 @@ class C09Conf(Suite):
                 return {"flags": 0 if ok else 1, "info": info}
             d, l = c["d"], c["l"]
             o = oracle(d, l)
-            x = Literal(l, datatype=XSD[d])
+            x = Literal(l, datatype=conf_dt_uri(d))
             info = {"lex": str.__str__(x), "ill": x.ill_typed, "val": repr(x.value)[:60]}
             if law == 0:
                 return {"flags": 0, "info": info, "overaccepted": x.ill_typed is False}
@@ -869,7 +939,7 @@ class C09Conf(Suite):
             if law == 3:
                 n1 = x.normalize()
                 n2 = n1.normalize()
-                re_ = Literal(str.__str__(x), datatype=XSD[d])
+                re_ = Literal(str.__str__(x), datatype=conf_dt_uri(d))
                 info.update(n1=str.__str__(n1), n2=str.__str__(n2))
                 ok = (canon_any(d, n1.value) == canon_any(d, x.value) and str.__str__(n2) == str.__str__(n1)
                       and canon_any(d, n2.value) == canon_any(d, n1.value) and str.__str__(re_) == str.__str__(x)
@@ -1096,8 +1166,8 @@ T_HMS = ["00:00:00", "12:34:56", "23:59:59", "24:00:00", "01:02:03", "23:59:60",
 T_FRAC = ["", "", "", ".5", ".123", ".123456", ".000001", ".1234567", ".0", ".000", ".9999999", ".1234560", ".0000000",
           ".1234565000", ".50", ".000000"]
 T_TZ = ["", "", "", "Z", "+00:00", "-00:00", "+14:00", "-14:00", "+05:30", "-09:00", "+13:59", "+14:01", "+15:00", "+23:59",
-        "+24:00", "+01:60", "-23:60", "-13:59", "+00:01"]
-T_OFFS = [None, None, 0, 330, -540, 840, -840, 1, -1, 839]  # XSD time zones: at most 14:00 either way
+        "+24:00", "+01:60", "-23:60", "-13:59", "+00:01", "-05:45", "+05:45", "-03:30", "-00:01", "-09:15"]
+T_OFFS = [None, None, 0, 330, -540, 840, -840, 1, -1, 839, -345, 345, -210, -555, -839]  # XSD time zones: at most 14:00 either way
 
 
 def gen_tform(rng, d):
